@@ -49,13 +49,36 @@ def coneK(K):
 
 
 # ------------------------------------------------------------ implementation runners
+MUTATED = []      # (function, what) — a standard-form routine changed the caller's (c, A, b, K): a later solve sees other data
+
+
+class Frozen:
+    """the caller's data; after the call under test it must still describe the same problem"""
+    def __init__(self, n, c, A, b, K):
+        self.c = np.array(c, dtype=float)
+        self.A = sp.csc_matrix(np.array(A, dtype=float).reshape(len(A), n))
+        self.b = np.array(b, dtype=float)
+        self.K = cones(K)
+        self.snap = (self.c.copy(), self.A.toarray().copy(), self.b.copy(), [(co.type, co.len) for co in self.K])
+
+    def check(self, fn):
+        now = (self.c, self.A.toarray(), self.b, [(co.type, co.len) for co in self.K])
+        for nm, u, v in zip(('c', 'A', 'b'), self.snap, now):
+            if u.shape != v.shape or not np.array_equal(u, v):
+                MUTATED.append((fn, 'argument %s changed from %s to %s' % (nm, u.tolist(), v.tolist())))
+        if self.snap[3] != now[3]:
+            MUTATED.append((fn, 'argument K changed from %s to %s' % (self.snap[3], now[3])))
+
+
 def impl_ecos(c, A, b, K):
     from sageopt.coniclifts.problems.solvers.ecos import ECOS
+    fz = Frozen(len(c), c, A, b, K)
     try:
-        data, _ = ECOS.apply(np.array(c, dtype=float), sp.csc_matrix(np.array(A, dtype=float).reshape(len(A), len(c))),
-                             np.array(b, dtype=float), cones(K), {})
+        data, _ = ECOS.apply(fz.c, fz.A, fz.b, fz.K, {})
     except RuntimeError:
         return None
+    finally:
+        fz.check('ECOS.apply')
     cn = data['cones']
     return vlib.Some((dense(data['G']), vec(data['h']),
                       (Nat(int(cn['l'])), Nat(int(cn['e'])), [Nat(int(q)) for q in cn['q']]),
@@ -64,16 +87,18 @@ def impl_ecos(c, A, b, K):
 
 def impl_separate(n, A, b, K, ds):
     from sageopt.coniclifts.reformulators import separate_cone_constraints
-    A2, b2, K2, sl = separate_cone_constraints(sp.csc_matrix(np.array(A, dtype=float).reshape(len(A), n)),
-                                               np.array(b, dtype=float), cones(K), dont_sep=(set(ds) if ds is not None else None))
+    fz = Frozen(n, [0] * n, A, b, K)
+    A2, b2, K2, sl = separate_cone_constraints(fz.A, fz.b, fz.K, dont_sep=(set(ds) if ds is not None else None))
+    fz.check('separate_cone_constraints')
     return (dense(A2), vec(b2), coneK(K2),
             [((Raw(TAG[co.type]), Nat(int(co.len))), [Nat(int(j)) for j in co.annotations['col mapping']]) for co in sl])
 
 
 def impl_mosek_primal(n, c, A, b, K):
     from sageopt.coniclifts.problems.solvers.mosek import Mosek
-    d, inv = Mosek._primal_apply(np.array(c, dtype=float), sp.csc_matrix(np.array(A, dtype=float).reshape(len(A), n)),
-                                 np.array(b, dtype=float), cones(K))
+    fz = Frozen(n, c, A, b, K)
+    d, inv = Mosek._primal_apply(fz.c, fz.A, fz.b, fz.K)
+    fz.check('Mosek._primal_apply')
     return (dense(d['A']) if d['A'].shape[0] else [], vec(d['b']), coneK(d['K']),
             [((Raw(TAG[co.type]), Nat(int(co.len))), [Nat(int(j)) for j in co.annotations['col mapping']]) for co in d['sep_K']],
             vec(d['c']), Nat(int(inv['n'])))
@@ -81,10 +106,12 @@ def impl_mosek_primal(n, c, A, b, K):
 
 def impl_mosek_dual(n, c, A, b, K):
     from sageopt.coniclifts.problems.solvers.mosek import Mosek
-    Am = sp.csc_matrix(np.array(A, dtype=float).reshape(len(A), n))
-    d, inv = Mosek._dual_apply(np.array(c, dtype=float), Am, np.array(b, dtype=float), cones(K))
+    fz = Frozen(n, c, A, b, K)
+    d, inv = Mosek._dual_apply(fz.c, fz.A, fz.b, fz.K)
+    fz.check('Mosek._dual_apply')
     cd = d['cone_dims']
-    form = Mosek.decide_primal_vs_dual(np.array(c, dtype=float), Am, np.array(b, dtype=float), cones(K), {})
+    form = Mosek.decide_primal_vs_dual(fz.c, fz.A, fz.b, fz.K, {})
+    fz.check('Mosek.decide_primal_vs_dual')
     return (vec(d['f']), dense(d['G']), vec(d['h']),
             (Nat(int(cd['+'])), [Nat(int(q)) for q in cd['S']], Nat(int(cd['de'])), Nat(int(cd['fr']))), form == 'dual')
 
@@ -370,6 +397,15 @@ def run(ctx):
             cs.append(({'sel': list(bits)}, cq(list(bits)), cq(out), (list(bits),)))
     suite(ctx, 'contiguous_selector_lengths', cs, 'contiguous_selector_lengths', 'ln_eqb', 'list bool', 'list nat',
           lambda sel: None)
+    # the routines are pure in the model; the implementation must not change the caller's data either (a Problem keeps
+    # A, b, K across solves with different solvers/options)
+    ctx.suites['arguments_unchanged'] = {'cases': len(ecos_cases) + len(sep_cases) + len(mp_cases) + 2 * len(md_cases), 'mismatches': len(MUTATED)}
+    if MUTATED:
+        fn, what = MUTATED[0]
+        ctx.problem('oracle', 'property fails on the implementation: %s modifies its arguments (%s): the problem data held by the caller '
+                    'no longer describe the same optimisation problem for the next standard-form construction' % (fn, what),
+                    inputs={'function': fn, 'what': what, 'count': len(MUTATED)}, failing_input_found=True)
+        del MUTATED[:]
     # end-to-end replay of the repaired defect F1 (adjacent second-order cones) through Problem.solve
     why = probe_adjacent_soc()
     if why:
